@@ -55,6 +55,11 @@ def _argument(m, args, raw):
     return Struct("FmtArgument", [kind, _turbofish(raw, "new_" + kind), args[0]])
 
 
+@model("Argument::from_usize")
+def _argument_usize(m, args, raw):
+    return Struct("FmtArgument", ["usize", "usize", args[0]])
+
+
 @model("Arguments::new")
 def _arguments_new(m, args, raw):
     tmpl = args[0]
@@ -103,17 +108,62 @@ def render(m, sink, fa):
         elif n == 0xC0:
             render_arg(m, sink, argv[nxt]); nxt += 1
         else:
-            raise Unsupported("format placeholder with options (%#x)" % n)
+            # placeholder with options: flags (u32), width (u16), precision (u16), arg_index (u16), each if its bit is set
+            flags, width, prec, has_width = 0x20 | (3 << 29), 0, None, False
+            if n & 1:
+                flags = tmpl[i] | (tmpl[i + 1] << 8) | (tmpl[i + 2] << 16) | (tmpl[i + 3] << 24); i += 4
+            if n & 2:
+                width = tmpl[i] | (tmpl[i + 1] << 8); i += 2; has_width = True
+            if n & 4:
+                raise Unsupported("format precision")
+            if n & 8:
+                nxt = tmpl[i] | (tmpl[i + 1] << 8); i += 2
+            if n & 16:
+                wa = argv[width]
+                if wa.fields[0] != "usize" or not isinstance(deref(wa.fields[2]), int):
+                    raise Unsupported("dynamic width %r" % (wa,))
+                width = deref(wa.fields[2])
+                if width > 0xFFFF:
+                    raise interp.RustPanic("Formatting argument out of range")
+            if n & 32:
+                raise Unsupported("dynamic precision")
+            if flags & ((1 << 21) | (1 << 22) | (1 << 23) | (1 << 24) | (1 << 25) | (1 << 26) | (1 << 28)):
+                raise Unsupported("format flags %#x" % flags)
+            render_arg(m, sink, argv[nxt], (flags, width if (flags & (1 << 27)) else 0)); nxt += 1
 
 
-def render_arg(m, sink, arg):
+def pad(sink, content, opts):
+    """Formatter::pad for a string: minimum width in chars, fill and alignment from the flags (default for str: left)"""
+    flags, width = opts
+    if any(not isinstance(b, int) and False for b in content):
+        pass
+    conc = bytes(b for b in content if isinstance(b, int))
+    nchars = len(conc.decode("utf-8", errors="replace")) + sum(1 for b in content if not isinstance(b, int))   # symbolic bytes are ASCII
+    if nchars >= width:
+        sink.bytes.extend(content)
+        return
+    fill = list(chr(flags & 0x1FFFFF).encode())
+    align = (flags >> 29) & 3
+    total = width - nchars
+    left = {0: 0, 1: total, 2: total // 2, 3: 0}[align]
+    sink.bytes.extend(fill * left)
+    sink.bytes.extend(content)
+    sink.bytes.extend(fill * (total - left))
+
+
+def render_arg(m, sink, arg, opts=None):
     kind, ty, val = arg.fields
     if kind != "display":
         raise Unsupported("format trait %s for %s" % (kind, ty))
     base = re.sub(r"<.*", "", ty.replace("&", "").replace("'_ ", "").strip())
     if base in ("Cow", "str", "String", "std::string::String", "std::borrow::Cow"):
-        sink.bytes.extend(str_bytes(val))
+        if opts is None:
+            sink.bytes.extend(str_bytes(val))
+        else:
+            pad(sink, str_bytes(val), opts)
         return
+    if opts is not None:
+        raise Unsupported("format options for " + ty)
     key = "<%s as Display>::fmt" % base.split("::")[-1]
     if key in m.index:
         r = m.call(key, [val, Struct("Formatter", [sink])])
